@@ -204,7 +204,7 @@ var S *Sim
 
 func New(seed uint64) *Sim {
 	s := &Sim{rng: seed*2862933555777941757 + 3037000493, MaxSteps: 200000,
-		Hash: 14695981039346656037, SchedHash: 14695981039346656037}
+		Hash: 14695981039346656037, SchedHash: 14695981039346656037, held: make([]heldLock, 0, 1024)}
 	if s.rng == 0 {
 		s.rng = 88172645463325252
 	}
@@ -517,7 +517,12 @@ func Lock(site int, m *sync.Mutex) {
 	if g != nil {
 		s.park(g, site, nil, m)
 		s.mu.Lock()
-		s.held = append(s.held, heldLock{m, g})
+		// no append / copy here: the runtime's slice helpers report to the race detector on the caller's behalf
+		if len(s.held) == cap(s.held) {
+			panic("vsim: more than 1024 mutexes held at once")
+		}
+		s.held = s.held[:len(s.held)+1]
+		s.held[len(s.held)-1] = heldLock{m, g}
 		s.mu.Unlock()
 	}
 	raceEnable()
@@ -535,7 +540,11 @@ func Unlock(m *sync.Mutex) {
 	s.mu.Lock()
 	for i := range s.held {
 		if s.held[i].m == m {
-			s.held = append(s.held[:i], s.held[i+1:]...)
+			for j := i; j+1 < len(s.held); j++ {
+				s.held[j] = s.held[j+1]
+			}
+			s.held[len(s.held)-1] = heldLock{}
+			s.held = s.held[:len(s.held)-1]
 			break
 		}
 	}
